@@ -15,6 +15,7 @@ Inductive rawev :=
 | RAns (p ridx ep : int)
 | RRoam (p ep : int)
 | RReplayInit (p ep : int)
+| RSetEp (p ep : int)
 | RShift (p : int)
 | RExp (p : int)
 | RDown
@@ -53,6 +54,7 @@ Definition dec_ev (r : rawev) : event :=
   | RAns p r e => AnswerHs (ni p) (ni r) (ni e)
   | RRoam p e => Roam (ni p) (ni e)
   | RReplayInit p e => ReplayInit (ni p) (ni e)
+  | RSetEp p e => SetEp (ni p) (ni e)
   | RShift p => ShiftHs (ni p)
   | RExp p => Expire (ni p)
   | RDown => Down
